@@ -81,19 +81,35 @@ Fixpoint take_units (fuel : nat) (n : N) (l : bytes) : option (bytes * bytes) :=
            end
        end.
 
-(* ---- Go's utf16Length (structural scan, io/encode.go) ---------------------
-   n starts as len(str); c is the number of continuation bytes still expected. *)
+(* ---- Go's utf16Length (io/encode.go, after the strictness fix) ----------------
+   n starts as len(str); c is the number of continuation bytes still expected;
+   the second byte of a 3- or 4-byte sequence is inspected when the lead byte is seen. *)
 Fixpoint go_scan (l : bytes) (c : N) (n : Z) : Z :=
   match l with
   | [] => if c =? 0 then n else (-1)%Z
   | a :: r =>
       if c =? 0 then
-        if N.land (bN a) 224 =? 192 then go_scan r 1 (n - 1)%Z       (* (a & 0xe0) == 0xc0 *)
-        else if N.land (bN a) 240 =? 224 then go_scan r 2 (n - 2)%Z  (* (a & 0xf0) == 0xe0 *)
-        else if N.land (bN a) 248 =? 240 then go_scan r 3 (n - 2)%Z  (* (a & 0xf8) == 0xf0 *)
-        else if N.land (bN a) 128 =? 128 then (-1)%Z                 (* (a & 0x80) == 0x80 *)
+        if N.land (bN a) 224 =? 192 then                              (* (a & 0xe0) == 0xc0 *)
+          if bN a <? 194 then (-1)%Z else go_scan r 1 (n - 1)%Z      (* a < 0xc2: overlong *)
+        else if N.land (bN a) 240 =? 224 then                         (* (a & 0xf0) == 0xe0 *)
+          match r with
+          | b :: _ =>
+              if ((bN a =? 224) && (bN b <? 160)) || ((bN a =? 237) && (159 <? bN b)) then (-1)%Z
+              else go_scan r 2 (n - 2)%Z
+          | [] => go_scan r 2 (n - 2)%Z
+          end
+        else if N.land (bN a) 248 =? 240 then                         (* (a & 0xf8) == 0xf0 *)
+          if 244 <? bN a then (-1)%Z                                  (* a > 0xf4 *)
+          else
+            match r with
+            | b :: _ =>
+                if ((bN a =? 240) && (bN b <? 144)) || ((bN a =? 244) && (143 <? bN b)) then (-1)%Z
+                else go_scan r 3 (n - 2)%Z
+            | [] => go_scan r 3 (n - 2)%Z
+            end
+        else if N.land (bN a) 128 =? 128 then (-1)%Z                  (* (a & 0x80) == 0x80 *)
         else go_scan r 0 n
-      else if negb (N.land (bN a) 192 =? 128) then (-1)%Z            (* (a & 0xc0) != 0x80 *)
+      else if negb (N.land (bN a) 192 =? 128) then (-1)%Z             (* (a & 0xc0) != 0x80 *)
       else go_scan r (c - 1) n
   end.
 
@@ -225,6 +241,9 @@ Lemma mask_cont b : (N.land (bN b) 192 =? 128) = is_cont b. Proof. destruct b; r
 Lemma bN_lt b : bN b < 256.
 Proof. unfold bN. pose proof (Byte.to_N_bounded b). lia. Qed.
 
+Lemma go_scan_nil c n : go_scan [] c n = if c =? 0 then n else (-1)%Z.
+Proof. reflexivity. Qed.
+
 Lemma go_scan_lead1 a r n : (bN a <? 128) = true -> go_scan (a :: r) 0 n = go_scan r 0 n.
 Proof.
   intros H. cbn [go_scan]. change (0 =? 0) with true. cbn iota.
@@ -232,77 +251,197 @@ Proof.
   replace (192 <=? bN a) with false by lia. replace (224 <=? bN a) with false by lia.
   replace (240 <=? bN a) with false by lia. replace (128 <=? bN a) with false by lia. reflexivity.
 Qed.
-Lemma go_scan_lead2 a r n : in_range 192 223 a = true -> go_scan (a :: r) 0 n = go_scan r 1 (n - 1)%Z.
-Proof. intros H. cbn [go_scan]. change (0 =? 0) with true. cbn iota. rewrite mask_c0, H. reflexivity. Qed.
-Lemma go_scan_lead3 a r n : in_range 224 239 a = true -> go_scan (a :: r) 0 n = go_scan r 2 (n - 2)%Z.
+
+Lemma go_scan_bad_lead a r n :
+  (in_range 128 193 a || in_range 245 255 a) = true -> go_scan (a :: r) 0 n = (-1)%Z.
+Proof.
+  intros H. cbn [go_scan]. change (0 =? 0) with true. cbn iota.
+  rewrite mask_c0, mask_e0, mask_f0, mask_80. pose proof (bN_lt a). unfold in_range in *.
+  destruct ((192 <=? bN a) && (bN a <=? 223)) eqn:E1.
+  { replace (bN a <? 194) with true by lia. reflexivity. }
+  destruct ((224 <=? bN a) && (bN a <=? 239)) eqn:E2; [lia|].
+  destruct ((240 <=? bN a) && (bN a <=? 247)) eqn:E3.
+  { replace (244 <? bN a) with true by lia. reflexivity. }
+  replace (128 <=? bN a) with true by lia. reflexivity.
+Qed.
+
+Lemma go_scan_lead2 a r n : in_range 194 223 a = true -> go_scan (a :: r) 0 n = go_scan r 1 (n - 1)%Z.
+Proof.
+  intros H. cbn [go_scan]. change (0 =? 0) with true. cbn iota. rewrite mask_c0.
+  unfold in_range in *. replace ((192 <=? bN a) && (bN a <=? 223)) with true by lia.
+  replace (bN a <? 194) with false by lia. reflexivity.
+Qed.
+
+Definition bad3 (a b : byte) : bool := ((bN a =? 224) && (bN b <? 160)) || ((bN a =? 237) && (159 <? bN b)).
+Definition bad4 (a b : byte) : bool := ((bN a =? 240) && (bN b <? 144)) || ((bN a =? 244) && (143 <? bN b)).
+
+Lemma go_scan_lead3_gen a l n : in_range 224 239 a = true ->
+  go_scan (a :: l) 0 n = match l with
+                         | b :: _ => if bad3 a b then (-1)%Z else go_scan l 2 (n - 2)%Z
+                         | [] => go_scan l 2 (n - 2)%Z
+                         end.
 Proof.
   intros H. cbn [go_scan]. change (0 =? 0) with true. cbn iota. rewrite mask_c0, mask_e0, H.
   replace (in_range 192 223 a) with false by (unfold in_range in *; lia). reflexivity.
 Qed.
-Lemma go_scan_lead4 a r n : in_range 240 247 a = true -> go_scan (a :: r) 0 n = go_scan r 3 (n - 2)%Z.
+
+Lemma go_scan_lead3_nil a n : in_range 224 239 a = true -> go_scan [a] 0 n = (-1)%Z.
+Proof. intros H. rewrite go_scan_lead3_gen by exact H. reflexivity. Qed.
+
+Lemma go_scan_lead3 a b r n : in_range 224 239 a = true ->
+  go_scan (a :: b :: r) 0 n = if bad3 a b then (-1)%Z else go_scan (b :: r) 2 (n - 2)%Z.
+Proof. intros H. rewrite go_scan_lead3_gen by exact H. reflexivity. Qed.
+
+Lemma go_scan_lead4_gen a l n : in_range 240 244 a = true ->
+  go_scan (a :: l) 0 n = match l with
+                         | b :: _ => if bad4 a b then (-1)%Z else go_scan l 3 (n - 2)%Z
+                         | [] => go_scan l 3 (n - 2)%Z
+                         end.
 Proof.
-  intros H. cbn [go_scan]. change (0 =? 0) with true. cbn iota. rewrite mask_c0, mask_e0, mask_f0, H.
-  replace (in_range 192 223 a) with false by (unfold in_range in *; lia).
-  replace (in_range 224 239 a) with false by (unfold in_range in *; lia). reflexivity.
+  intros H. cbn [go_scan]. change (0 =? 0) with true. cbn iota. rewrite mask_c0, mask_e0, mask_f0.
+  unfold in_range in *. replace ((192 <=? bN a) && (bN a <=? 223)) with false by lia.
+  replace ((224 <=? bN a) && (bN a <=? 239)) with false by lia.
+  replace ((240 <=? bN a) && (bN a <=? 247)) with true by lia.
+  replace (244 <? bN a) with false by lia. reflexivity.
 Qed.
+
+Lemma go_scan_lead4_nil a n : in_range 240 244 a = true -> go_scan [a] 0 n = (-1)%Z.
+Proof. intros H. rewrite go_scan_lead4_gen by exact H. reflexivity. Qed.
+
+Lemma go_scan_lead4 a b r n : in_range 240 244 a = true ->
+  go_scan (a :: b :: r) 0 n = if bad4 a b then (-1)%Z else go_scan (b :: r) 3 (n - 2)%Z.
+Proof. intros H. rewrite go_scan_lead4_gen by exact H. reflexivity. Qed.
+
 Lemma go_scan_cont a r c n : is_cont a = true -> c <> 0 -> go_scan (a :: r) c n = go_scan r (c - 1) n.
 Proof.
   intros H Hc. cbn [go_scan]. replace (c =? 0) with false by lia. rewrite mask_cont, H. reflexivity.
 Qed.
 
-(* one strictly valid character advances the Go scan by (bytes - units) *)
-Lemma go_scan_char c u : one_char c u -> forall r n,
-  go_scan (c ++ r) 0 n = go_scan r 0 (n - Z.of_nat (length c) + Z.of_N u)%Z.
+Lemma go_scan_notcont a r c n : is_cont a = false -> c <> 0 -> go_scan (a :: r) c n = (-1)%Z.
 Proof.
-  unfold one_char, next_char. intros H r n.
-  destruct c as [|b0 c]; [discriminate|].
+  intros H Hc. cbn [go_scan]. replace (c =? 0) with false by lia. rewrite mask_cont, H. reflexivity.
+Qed.
+
+(* acceptance: a strictly valid character advances the scan by (bytes - units) *)
+Lemma go_scan_next l c u r : next_char l = Some (c, u, r) -> forall n,
+  go_scan l 0 n = go_scan r 0 (n - Z.of_nat (length c) + Z.of_N u)%Z.
+Proof.
+  unfold next_char. destruct l as [|b0 l]; [discriminate|]. intros H n.
   destruct (bN b0 <? 128) eqn:E0.
-  { inversion H; subst. cbn [app]. rewrite go_scan_lead1 by exact E0. cbn [length]. f_equal. lia. }
+  { inversion H; subst. rewrite go_scan_lead1 by exact E0. cbn [length]. f_equal. lia. }
   destruct (in_range 194 223 b0) eqn:E1.
-  { destruct c as [|b1 c]; [discriminate|]. destruct (is_cont b1) eqn:C1; [|discriminate].
-    inversion H; subst. cbn [app].
-    rewrite go_scan_lead2 by (unfold in_range in *; lia).
+  { destruct l as [|b1 l]; [discriminate|]. destruct (is_cont b1) eqn:C1; [|discriminate].
+    inversion H; subst. rewrite go_scan_lead2 by exact E1.
     rewrite go_scan_cont by (auto; lia). cbn [length]. change (1 - 1) with 0. f_equal. lia. }
   destruct (in_range 224 239 b0) eqn:E2.
-  { destruct c as [|b1 [|b2 c]]; try discriminate.
+  { destruct l as [|b1 [|b2 l]]; try discriminate.
     destruct (_ && _) eqn:C; [|discriminate]. inversion H; subst.
     apply andb_prop in C. destruct C as [C1 C2].
     assert (C1' : is_cont b1 = true).
     { unfold is_cont, in_range in *. destruct (bN b0 =? 224); destruct (bN b0 =? 237); lia. }
-    cbn [app]. rewrite go_scan_lead3 by exact E2.
+    rewrite go_scan_lead3 by exact E2.
+    replace (bad3 b0 b1) with false
+      by (unfold bad3, in_range in *; destruct (bN b0 =? 224) eqn:?; destruct (bN b0 =? 237) eqn:?; lia).
     rewrite go_scan_cont by (auto; lia). change (2 - 1) with 1.
     rewrite go_scan_cont by (auto; lia). change (1 - 1) with 0. cbn [length]. f_equal. lia. }
   destruct (in_range 240 244 b0) eqn:E3; [|discriminate].
-  destruct c as [|b1 [|b2 [|b3 c]]]; try discriminate.
+  destruct l as [|b1 [|b2 [|b3 l]]]; try discriminate.
   destruct (_ && _) eqn:C; [|discriminate]. inversion H; subst.
   apply andb_prop in C. destruct C as [C C3]. apply andb_prop in C. destruct C as [C1 C2].
   assert (C1' : is_cont b1 = true).
   { unfold is_cont, in_range in *. destruct (bN b0 =? 240); destruct (bN b0 =? 244); lia. }
-  cbn [app]. rewrite go_scan_lead4 by (unfold in_range in *; lia).
+  rewrite go_scan_lead4 by exact E3.
+  replace (bad4 b0 b1) with false
+    by (unfold bad4, in_range in *; destruct (bN b0 =? 240) eqn:?; destruct (bN b0 =? 244) eqn:?; lia).
   rewrite go_scan_cont by (auto; lia). change (3 - 1) with 2.
   rewrite go_scan_cont by (auto; lia). change (2 - 1) with 1.
   rewrite go_scan_cont by (auto; lia). change (1 - 1) with 0. cbn [length]. f_equal. lia.
 Qed.
 
-Lemma go_scan_cat cs : valid_chars cs -> forall n,
-  go_scan (cat cs) 0 n = (n - Z.of_nat (length (cat cs)) + Z.of_N (units cs))%Z.
+(* a run of continuation bytes can only end in rejection when the scan owes bytes at the end *)
+Lemma go_scan_owes_nil c n : c <> 0 -> go_scan [] c n = (-1)%Z.
+Proof. intros H. cbn. replace (c =? 0) with false by lia. reflexivity. Qed.
+
+(* rejection: where the strict reader fails, so does the scan *)
+Lemma go_scan_reject l : l <> [] -> next_char l = None -> forall n, go_scan l 0 n = (-1)%Z.
 Proof.
-  induction cs as [|[c u] cs IH]; intros Hv n.
-  - cbn. lia.
-  - inversion Hv as [|x l Hc Hcs]; subst. cbn [fst snd] in Hc.
-    unfold cat in *. cbn [map concat fst]. rewrite (go_scan_char _ _ Hc). rewrite (IH Hcs).
-    rewrite app_length. cbn [units fold_right snd]. fold (units cs). lia.
+  unfold next_char. destruct l as [|b0 l]; [congruence|]. intros _ H n.
+  pose proof (bN_lt b0) as Hlt.
+  destruct (bN b0 <? 128) eqn:E0; [discriminate|].
+  destruct (in_range 194 223 b0) eqn:E1.
+  { rewrite go_scan_lead2 by exact E1.
+    destruct l as [|b1 l]; [apply go_scan_owes_nil; lia|].
+    destruct (is_cont b1) eqn:C1; [discriminate|]. apply go_scan_notcont; [exact C1|lia]. }
+  destruct (in_range 224 239 b0) eqn:E2.
+  { destruct l as [|b1 l]; [apply go_scan_lead3_nil; exact E2|].
+    rewrite go_scan_lead3 by exact E2. destruct (bad3 b0 b1) eqn:B; [reflexivity|].
+    destruct (is_cont b1) eqn:C1; [|apply go_scan_notcont; [exact C1|lia]].
+    rewrite go_scan_cont by (auto; lia). change (2 - 1) with 1.
+    destruct l as [|b2 l]; [apply go_scan_owes_nil; lia|].
+    destruct (is_cont b2) eqn:C2; [|apply go_scan_notcont; [exact C2|lia]].
+    exfalso. cbn beta iota zeta in H. rewrite andb_true_r in H.
+    assert (R : in_range (if bN b0 =? 224 then 160 else 128) (if bN b0 =? 237 then 159 else 191) b1 = true).
+    { unfold bad3, is_cont, in_range in *. destruct (bN b0 =? 224) eqn:?; destruct (bN b0 =? 237) eqn:?; lia. }
+    rewrite R in H. discriminate. }
+  destruct (in_range 240 244 b0) eqn:E3.
+  { destruct l as [|b1 l]; [apply go_scan_lead4_nil; exact E3|].
+    rewrite go_scan_lead4 by exact E3. destruct (bad4 b0 b1) eqn:B; [reflexivity|].
+    destruct (is_cont b1) eqn:C1; [|apply go_scan_notcont; [exact C1|lia]].
+    rewrite go_scan_cont by (auto; lia). change (3 - 1) with 2.
+    destruct l as [|b2 l]; [apply go_scan_owes_nil; lia|].
+    destruct (is_cont b2) eqn:C2; [|apply go_scan_notcont; [exact C2|lia]].
+    rewrite go_scan_cont by (auto; lia). change (2 - 1) with 1.
+    destruct l as [|b3 l]; [apply go_scan_owes_nil; lia|].
+    destruct (is_cont b3) eqn:C3; [|apply go_scan_notcont; [exact C3|lia]].
+    exfalso. cbn beta iota zeta in H. rewrite !andb_true_r in H.
+    assert (R : in_range (if bN b0 =? 240 then 144 else 128) (if bN b0 =? 244 then 143 else 191) b1 = true).
+    { unfold bad4, is_cont, in_range in *. destruct (bN b0 =? 240) eqn:?; destruct (bN b0 =? 244) eqn:?; lia. }
+    rewrite R in H. discriminate. }
+  apply go_scan_bad_lead. unfold in_range in *. lia.
+Qed.
+
+(* The scan decides strict UTF-8 and, on it, counts UTF-16 code units. *)
+Lemma go_scan_spec : forall fuel l n, (length l <= fuel)%nat ->
+  go_scan l 0 n = match chars fuel l with
+                  | Some cs => (n - Z.of_nat (length l) + Z.of_N (units cs))%Z
+                  | None => (-1)%Z
+                  end.
+Proof.
+  induction fuel as [|f IH]; intros l n Hl.
+  - destruct l; [cbn; lia | cbn in Hl; lia].
+  - destruct l as [|b l]; [cbn; lia|]. cbn [chars].
+    destruct (next_char (b :: l)) as [[[c u] r]|] eqn:E.
+    + rewrite (go_scan_next _ _ _ _ E). destruct (next_char_shape _ _ _ _ E) as (Hsplit & Hne & _ & _).
+      assert (Hlen : length (b :: l) = (length c + length r)%nat) by (rewrite Hsplit, app_length; reflexivity).
+      assert (Hc : (1 <= length c)%nat) by (destruct c; [congruence | cbn; lia]).
+      rewrite IH by lia. destruct (chars f r) as [cs|]; [|reflexivity].
+      cbn [units fold_right snd]. fold (units cs). lia.
+    + apply go_scan_reject; [discriminate | exact E].
+Qed.
+
+Theorem go_utf16Length_spec l :
+  go_utf16Length l = match str_chars l with Some cs => Z.of_N (units cs) | None => (-1)%Z end.
+Proof.
+  unfold go_utf16Length, str_chars. rewrite (go_scan_spec (length l) l) by lia.
+  destruct (chars (length l) l); lia.
 Qed.
 
 (* On strict UTF-8, Go's utf16Length is the number of UTF-16 code units. *)
 Theorem go_utf16Length_strict l cs : str_chars l = Some cs -> go_utf16Length l = Z.of_N (units cs).
+Proof. intros H. rewrite go_utf16Length_spec, H. reflexivity. Qed.
+
+(* ... and everything else is rejected (and therefore written as bytes by the encoder). *)
+Theorem go_utf16Length_nonstrict l : strict_utf8 l = false -> go_utf16Length l = (-1)%Z.
 Proof.
-  intros H. destruct (chars_sound _ _ _ H) as [Hv Hc]. subst l.
-  unfold go_utf16Length. rewrite (go_scan_cat _ Hv). lia.
+  unfold strict_utf8. intros H. rewrite go_utf16Length_spec. destruct (str_chars l); [discriminate|reflexivity].
 Qed.
 
-(* The gap: strings Go's scan accepts although they are not UTF-8 (witnesses). *)
-Example go_accepts_overlong : go_utf16Length [Byte.xc0; Byte.x80] = 1%Z /\ strict_utf8 [Byte.xc0; Byte.x80] = false.
+Theorem go_utf16Length_nonneg_iff l : (0 <= go_utf16Length l)%Z <-> strict_utf8 l = true.
+Proof.
+  unfold strict_utf8. rewrite go_utf16Length_spec. destruct (str_chars l); split; intros; try lia; try discriminate; reflexivity.
+Qed.
+
+Example go_rejects_overlong : go_utf16Length [Byte.xc0; Byte.x80] = (-1)%Z /\ strict_utf8 [Byte.xc0; Byte.x80] = false.
 Proof. split; reflexivity. Qed.
-Example go_accepts_surrogate : go_utf16Length [Byte.xed; Byte.xa0; Byte.x80] = 1%Z /\ strict_utf8 [Byte.xed; Byte.xa0; Byte.x80] = false.
-Proof. split; reflexivity. Qed.
+Example go_rejects_surrogate : go_utf16Length [Byte.xed; Byte.xa0; Byte.x80] = (-1)%Z.
+Proof. reflexivity. Qed.
